@@ -58,6 +58,7 @@ type Client struct {
 	SlowRead bool   `json:"slow_read,omitempty"` // with Pipeline: the client takes the first ten octets of the reply stream, pauses for three seconds, then reads on; the link's window is 256 octets in such a run, so the server's writes wait for it
 	Trickle  bool   `json:"trickle,omitempty"`   // tcp: the first query arrives in three pieces, 1.5 and 1 server read timeouts apart, the others right behind it; the server (read timeout 2 s in such a run) may give up on the connection, it must not serve anything but the requests that were sent
 	Home     int    `json:"home,omitempty"`      // udp: which of the server host's addresses this client talks to
+	TwinOf   int    `json:"twin_of,omitempty"`   // 1+index of another client of the same transport: this client's first exchange asks the very question (name, type, class) of that client's first exchange, at the same time, with an ID of its own
 }
 
 type Scenario struct {
@@ -78,6 +79,7 @@ type Scenario struct {
 	UDPSock   bool     `json:"udp_sock,omitempty"`   // the datagram server runs on a UDP socket (SessionUDP branch with control messages) where the build has that seam, not on a generic PacketConn
 	PostYield bool     `json:"post_yield,omitempty"` // the return of every transport operation is a scheduling point of its own
 	Homes     int      `json:"homes,omitempty"`      // with UDPSock: the server host has this many addresses (two IPv4, one IPv6)
+	Shared    bool     `json:"shared,omitempty"`     // the way applications hold a Client: one dns.Client per transport, shared by all the tasks of the run for the exchanges the library dials itself (SingleInflight set, which is documented to do nothing)
 
 	// framing
 	Sizes     []int `json:"sizes,omitempty"`  // message sizes written on one stream
@@ -247,6 +249,35 @@ func Gen(seed uint64, tier string) any {
 		}
 		sc.Clients = append(sc.Clients, c)
 	}
+	if len(sc.Clients) >= 2 && core.Chance(r, 12) {
+		sc.Shared = true
+		to := core.Pick(r, 2000, 60000)
+		for i := range sc.Clients {
+			c := &sc.Clients[i]
+			if c.Pipeline {
+				continue
+			}
+			for j := range c.Exch {
+				e := &c.Exch[j]
+				e.API, e.TimeoutMs, e.ReadTOMs, e.TOKind, e.Tsig, e.CliUDP, e.OptSize = 3+r.IntN(2), to, 0, 0, false, 65535, 0
+				if e.DialMs == 0 && e.Dial == "" {
+					e.DialMs = core.Pick(r, 0, 1, 30)
+				}
+			}
+		}
+		a := r.IntN(len(sc.Clients))
+		b := (a + 1 + r.IntN(len(sc.Clients)-1)) % len(sc.Clients)
+		if ca, cb := &sc.Clients[a], &sc.Clients[b]; ca.Net == cb.Net && !ca.Pipeline && !cb.Pipeline && core.Chance(r, 70) {
+			cb.TwinOf = a + 1
+			ca.After, cb.After = 0, 0
+			ea, eb := &ca.Exch[0], &cb.Exch[0]
+			ea.H = HPlan{Kind: "normal", SleepMs: core.Pick(r, 1, 20, 400), ReplySize: ea.H.ReplySize}
+			eb.H = HPlan{Kind: "normal", ReplySize: eb.H.ReplySize}
+			ea.Dial, eb.Dial, ea.QCase, eb.QCase = "", "", false, false
+			ea.API = 3 + r.IntN(2)
+			eb.API = ea.API
+		}
+	}
 	if sc.Window > 0 {
 		// a small window is a property of the run's link: every pipelining client then keeps to queries that fit it
 		// together (see above: otherwise client and server end up stuck writing to each other)
@@ -391,6 +422,8 @@ func clone(b []byte) []byte { return append([]byte(nil), b...) }
 type exState struct {
 	ci, ei   int
 	token    string
+	qtoken   string   // the first label of the question: the token, or for a twin the token of the exchange whose question it repeats
+	twin     *exState // the exchange that repeats this one's question
 	plan     Exch
 	id       uint16
 	reqBytes []byte // what the client handed to the library (packed by the harness beforehand)
@@ -423,6 +456,7 @@ type run struct {
 	lifeFin   bool
 	serveRet  int
 	doneSeq   int
+	shared    map[string]*dns.Client // with Scenario.Shared: the one Client per transport
 	dialed    map[string]*dialRec // exchanges that go through the library's own dial
 	rawConn   map[int]bool        // client connections the harness writes octet by octet
 	connReply map[string][]*wrec  // server-side remote address -> replies handlers handed to the writer there, in order of hand-over
@@ -476,6 +510,26 @@ func tokenOf(name string) string {
 	return name
 }
 
+// exOfWire: the exchange a packed message (query or reply) belongs to, by the
+// first label of its question - and by its ID where two exchanges ask the
+// same question.
+//
+//go:norace
+func (x *run) exOfWire(b []byte) *exState {
+	if len(b) < 13 {
+		return nil
+	}
+	q, _, _, err := oracle.Name(b, 12)
+	if err != nil {
+		return nil
+	}
+	ex := x.ex[tokenOf(q)]
+	if ex != nil && ex.twin != nil && uint16(b[0])<<8|uint16(b[1]) == ex.twin.id {
+		return ex.twin
+	}
+	return ex
+}
+
 //go:norace
 func (x *run) ServeDNS(w dns.ResponseWriter, r *dns.Msg) {
 	k := x.k
@@ -485,6 +539,10 @@ func (x *run) ServeDNS(w dns.ResponseWriter, r *dns.Msg) {
 	}
 	k.Lock()
 	ex := x.ex[tok]
+	if ex != nil && ex.twin != nil && r.Id == ex.twin.id {
+		ex = ex.twin
+		tok = ex.token
+	}
 	if ex == nil {
 		x.res.Fail("X1", "unknown-request", "handler saw a request that no client sent (question %v)", r.Question)
 		k.Unlock()
@@ -729,7 +787,7 @@ func (x *run) scribble(ex *exState) {
 		if d.Injected || len(d.Data) < 13 {
 			continue
 		}
-		if q, _, _, err := oracle.Name(d.Data, 12); err == nil && tokenOf(q) == ex.token {
+		if x.exOfWire(d.Data) == ex {
 			mine = append(mine, d)
 		}
 	}
@@ -881,9 +939,9 @@ func (c *clientTask) RunEvent(time.Time) {
 	for ei, e := range plan.Exch {
 		ex := x.ex[tok(c.ci, ei)]
 		m := new(dns.Msg)
-		m.SetQuestion(ex.token+".test.", dns.TypeTXT)
+		m.SetQuestion(ex.qtoken+".test.", dns.TypeTXT)
 		if e.QCase {
-			m.Question[0].Name = strings.ToUpper(ex.token) + ".TeSt."
+			m.Question[0].Name = strings.ToUpper(ex.qtoken) + ".TeSt."
 		}
 		m.Id = ex.id
 		m.Compress = e.Compress
@@ -943,6 +1001,19 @@ func (c *clientTask) RunEvent(time.Time) {
 			cl.Timeout, cl.ReadTimeout, cl.WriteTimeout, cl.DialTimeout = 0, 0, 0, 0
 			eff = 2 * time.Second // the documented default
 		}
+		sharedCl := false
+		if x.shared != nil && e.API >= 3 && common.DialSeam() && !plan.Pipeline && !signed {
+			// the Client of the whole run for this transport: its settings are those of the exchange that came first
+			k.Lock()
+			sh := x.shared[plan.Net]
+			if sh == nil {
+				sh = &dns.Client{Net: plan.Net, Timeout: time.Duration(e.TimeoutMs) * time.Millisecond, UDPSize: 65535, SingleInflight: true}
+				x.shared[plan.Net] = sh
+			}
+			k.Unlock()
+			cl, eff, sharedCl = sh, sh.Timeout, true
+			x.bump("cover.exchange_through_shared_client")
+		}
 		start := time.Now()
 		deadline := start.Add(eff)
 		rcvStart := 0
@@ -960,17 +1031,24 @@ func (c *clientTask) RunEvent(time.Time) {
 		if api >= 3 {
 			// the library makes, uses and closes the connection itself
 			x.bump("cover.exchange_through_dial")
-			cl.Net = plan.Net
+			if !sharedCl {
+				cl.Net = plan.Net
+			}
 			// a caller-supplied Dialer replaces the one the client would derive from its Timeout:
 			// give it the same bound (always, where nothing else would end a black-holed attempt)
-			cl.Dialer = &net.Dialer{LocalAddr: dialTag{c.ci, ei}}
 			dialLimit := time.Duration(0) // what bounds the connection attempt by itself
-			if (c.ci+ei)%2 == 0 || e.Dial == "blackhole" {
-				cl.Dialer.Timeout = eff
-				dialLimit = eff
+			if !sharedCl {
+				cl.Dialer = &net.Dialer{LocalAddr: dialTag{c.ci, ei}}
+				if (c.ci+ei)%2 == 0 || e.Dial == "blackhole" {
+					cl.Dialer.Timeout = eff
+					dialLimit = eff
+				}
 			}
 			addr := "10.0.0.1:53"
-			if (c.ci+ei)%3 == 1 {
+			if sharedCl {
+				dialLimit = eff
+				addr = "10.0.0.1:" + strconv.Itoa(20000+c.ci*64+ei)
+			} else if (c.ci+ei)%3 == 1 {
 				// no Dialer of the caller's: the client derives one from its own time limits
 				// (the exchange is then recognised by the port it dials)
 				cl.Dialer, dialLimit = nil, eff
@@ -1093,7 +1171,26 @@ func (c *clientTask) RunEvent(time.Time) {
 		k.EffectLocked("cli " + ex.token + " " + out)
 		k.Unlock()
 		if sconn != nil && err != nil && out != "errid" {
-			break // the stream is in an unknown position after an I/O error
+			// After an I/O error the stream is in an unknown position - unless the error was the read deadline
+			// and it struck between two messages: the query went out whole and nothing of a reply has been
+			// consumed. Such a connection is as good as before (a caller that retries on it is entitled to the
+			// ID rule: the late reply of the exchange that gave up is a foreign-ID reply for the next one).
+			aligned := false
+			if out == "timeout" {
+				k.Lock()
+				_, restOut := oracle.Frames(sconn.Sent())
+				frames, _ := oracle.Frames(sconn.Peer.Sent())
+				consumed := 0
+				for i := 0; i < reads && i < len(frames); i++ {
+					consumed += 2 + len(frames[i])
+				}
+				aligned = len(restOut) == 0 && reads <= len(frames) && sconn.ReadTotal == consumed
+				k.Unlock()
+			}
+			if !aligned {
+				break
+			}
+			x.bump("cover.stream_reused_after_timeout")
 		}
 	}
 	co.Close()
@@ -1619,11 +1716,22 @@ func runExchange(sc *Scenario, res *core.Result, verbose bool) {
 	}
 	for ci, c := range sc.Clients {
 		for ei, e := range c.Exch {
-			x.ex[tok(ci, ei)] = &exState{ci: ci, ei: ei, token: tok(ci, ei), plan: e, id: uint16(1000 + ci*64 + ei), net: c.Net}
+			x.ex[tok(ci, ei)] = &exState{ci: ci, ei: ei, token: tok(ci, ei), qtoken: tok(ci, ei), plan: e, id: uint16(1000 + ci*64 + ei), net: c.Net}
 			if ci == 0 && ei == 0 && sc.RunSeed%5 == 0 {
 				x.ex[tok(ci, ei)].id = 0 // a query whose ID is zero is a query like any other
 			}
 		}
+	}
+	for ci, c := range sc.Clients {
+		if c.TwinOf > 0 && c.TwinOf-1 != ci && c.TwinOf <= len(sc.Clients) && sc.Clients[c.TwinOf-1].Net == c.Net && sc.Clients[c.TwinOf-1].TwinOf == 0 {
+			if a, b := x.ex[tok(c.TwinOf-1, 0)], x.ex[tok(ci, 0)]; a != nil && b != nil && a.twin == nil {
+				a.twin, b.qtoken = b, a.token
+				res.Bump("cover.same_question_twice_at_once")
+			}
+		}
+	}
+	if sc.Shared {
+		x.shared = map[string]*dns.Client{}
 	}
 	start0 := time.Now()
 	k.Go("serve-tcp", &serveTask{x, x.tcp})
@@ -1675,9 +1783,8 @@ func (x *run) judgeRun(outcome string) {
 		if !d.FromSrv || d.Injected || len(d.Orig) < 13 {
 			continue
 		}
-		q, _, _, err := oracle.Name(d.Orig, 12)
-		ex := x.ex[tokenOf(q)]
-		if err != nil || ex == nil || ex.net != "udp" {
+		ex := x.exOfWire(d.Orig)
+		if ex == nil || ex.net != "udp" {
 			continue
 		}
 		res.Bump("oracle.X3_reply_source_address")
@@ -1700,8 +1807,8 @@ func (x *run) judgeRun(outcome string) {
 	delivered := map[string]int{}
 	for _, d := range x.pc.Received {
 		if len(d.Data) >= 13 && !d.TruncRead {
-			if q, _, _, err := oracle.Name(d.Data, 12); err == nil {
-				delivered[tokenOf(q)]++
+			if ex := x.exOfWire(d.Data); ex != nil {
+				delivered[ex.token]++
 			}
 		}
 	}
